@@ -98,6 +98,22 @@ int nm_decode_row(u16 o) {
         if (table[i].Matches(o)) { if (found >= 0) return -2; found = (int)i; }
     return found;
 }
+// identity of the entry the interpreter really dispatches through (Interpreter::decoders == GetDecoderTable<Interpreter>(),
+// 65536 entries) in terms of the decode table rows: row index, -1 for the catch-all "undefined" entry, -3 if it is neither
+int nm_decoders_row(u16 o) {
+    static const auto big = GetDecoderTable<Interpreter>();
+    static const auto table = GetDecodeTable<Interpreter>();
+    const auto& m = big[o];
+    if (m.mask == 0 && m.expected == 0 && m.rejectors.empty()) return -1;
+    for (unsigned i = 0; i < table.size(); ++i) {
+        const auto& t = table[i];
+        if (t.name == m.name && t.mask == m.mask && t.expected == m.expected && t.expanded == m.expanded && t.rejectors.size() == m.rejectors.size() &&
+            std::equal(t.rejectors.begin(), t.rejectors.end(), m.rejectors.begin(), [](const Rejector& a, const Rejector& b) { return a.mask == b.mask && a.unexpected == b.unexpected; }))
+            return (int)i;
+    }
+    return -3;
+}
+int nm_decoders_size() { static const auto big = GetDecoderTable<Interpreter>(); return (int)big.size(); }
 int nm_row_needexp(unsigned row) { static const auto table = GetDecodeTable<Interpreter>(); return table[row].NeedExpansion(); }
 int nm_table_size() { static const auto table = GetDecodeTable<Interpreter>(); return (int)table.size(); }
 #endif
